@@ -379,3 +379,66 @@ func inQueue(q []*gstate, g *gstate) bool {
 	}
 	return false
 }
+
+// ---------------------------------------------------------------------------------------
+// sync/atomic.Value (its real body juggles interface words through unsafe pointers)
+
+func init() {
+	field := func(fr *frame, p value) *value {
+		pp, _ := p.(*value)
+		if pp == nil {
+			panic(runtimeError("invalid memory address or nil pointer dereference"))
+		}
+		st, ok := (*pp).(structure)
+		if !ok || len(st) < 1 {
+			panic(unsupported("unexpected layout of atomic.Value"))
+		}
+		if s := fr.i.sched; s != nil {
+			s.point(fr)
+			s.atomSync(pp)
+		}
+		return &st[0]
+	}
+	check := func(fr *frame, old, val value) iface {
+		v, _ := val.(iface)
+		if v.t == nil {
+			panic(targetPanic{iface{t: types.Typ[types.String], v: "sync/atomic: store of nil value into Value"}})
+		}
+		if o, _ := old.(iface); o.t != nil && !types.Identical(o.t, v.t) {
+			panic(targetPanic{iface{t: types.Typ[types.String], v: "sync/atomic: store of inconsistently typed value into Value"}})
+		}
+		return v
+	}
+	stdIntrinsicsExtra["(*sync/atomic.Value).Load"] = func(fr *frame, args []value) value {
+		f := field(fr, args[0])
+		if v, ok := (*f).(iface); ok {
+			return v
+		}
+		return iface{}
+	}
+	stdIntrinsicsExtra["(*sync/atomic.Value).Store"] = func(fr *frame, args []value) value {
+		f := field(fr, args[0])
+		*f = check(fr, *f, args[1])
+		return nil
+	}
+	stdIntrinsicsExtra["(*sync/atomic.Value).Swap"] = func(fr *frame, args []value) value {
+		f := field(fr, args[0])
+		old := *f
+		*f = check(fr, old, args[1])
+		if o, ok := old.(iface); ok {
+			return o
+		}
+		return iface{}
+	}
+	stdIntrinsicsExtra["(*sync/atomic.Value).CompareAndSwap"] = func(fr *frame, args []value) value {
+		f := field(fr, args[0])
+		nv := check(fr, *f, args[2])
+		cur, _ := (*f).(iface)
+		want, _ := args[1].(iface)
+		if cur.t == nil && want.t == nil || (cur.t != nil && want.t != nil && types.Identical(cur.t, want.t) && equals(cur.t, cur.v, want.v)) {
+			*f = nv
+			return true
+		}
+		return false
+	}
+}
